@@ -18,7 +18,9 @@ import copy
 FG = ["white", "lime", "cyan", "red", "yellow", "magenta", "blue", "black"]      # WebVTT 5.1 default classes
 OTHER_CLASSES = ["loud", "first", "x1"]                                           # no UA style: must change nothing
 ENTITIES = [("&amp;", "&"), ("&lt;", "<"), ("&gt;", ">"), ("&nbsp;", " "), ("&lrm;", "‎"), ("&rlm;", "‏"),
-            ("&#65;", "A"), ("&#233;", "é"), ("&#x263A;", "☺"), ("&#x41;", "A")]
+            ("&#65;", "A"), ("&#233;", "é"), ("&#x263A;", "☺"), ("&#x41;", "A"),
+            # an escaped ampersand followed by what would be a reference again: decoded exactly once
+            ("&amp;lt;", "&lt;"), ("&amp;amp;", "&amp;"), ("&amp;#38;", "&#38;"), ("&amp;gt;", "&gt;"), ("&amp;nbsp;", "&nbsp;")]
 LANGS = ["en", "fr", "ja", "en-GB", "zh-Hant"]
 VOICES = ["Bob", "Anna Lee", "Dr. No", "Esme"]
 VOICES_CREF = ["R&amp;D", "Tom &amp; Al", "a&lt;b"]
